@@ -55,7 +55,7 @@ def run(ck):
     pairwise_pass(ck, "C03.8")
     from ..report import RuleView
     from . import c08
-    c08._joined_row(RuleView(ck, {"C08.6": "C03.8"}))
+    c08._joined_row(RuleView(ck, {"C08.6": "C03.8"}, not_constructs=(":queryId", ":referenceId", ":queryLength", ":referenceLength")))   # which maps a record names is no matter of its HitEnum
     ck.clause("C03.10", "the pairs of a joined record share one numbering: second-pass fragments are aligned as they were cut, with "
                         "their label-number offset (as C02.4)")
     from .c02 import fragments_reach_second_pass
@@ -68,7 +68,8 @@ def run(ck):
                         "coordinate (`positions.index(...)`) is one short when two labels share a coordinate, and the joined record then "
                         "holds two pairs with one query label number - the HitEnum walk drops one")
     from .c02 import fragments as _fr03
-    _fr03(ck, "C03.18")
+    from ..report import RuleView as _RV318
+    _fr03(_RV318(ck, {"C03.18": "C03.18"}, not_constructs=(":length",)), "C03.18")      # the HitEnum walk reads label numbers, not lengths
     ck.clause("C03.19", "a record keeps the strand it was built on: records are made by AlignmentResultRow.create only (as C02.10 / C04.2) - "
                         "a copy made with the raw constructor that leaves reverseStrand to its default writes Orientation '+' over pairs "
                         "that descend in the query, and the HitEnum walked in that direction does not give the listed pairs")
